@@ -562,8 +562,30 @@ func (h *NetH) SetRulesDiscarded(i int, rules []string) bool {
 	ci := h.chains[i]
 	h.coord.UpdateTimeForChain(ci)
 	now := h.now()
+	probe := func() string {
+		c := ci.GetContext()
+		rk := ci.App.TIBCKeeper.RoutingKeeper
+		got, found := rk.GetRoutingRules(c)
+		out := fmt.Sprint(found, got)
+		for _, s := range h.names {
+			for _, d := range h.names {
+				for _, port := range []string{"NFT", "MT", "tibcmock"} {
+					out += fmt.Sprint(rk.Authenticate(c, s, d, port))
+				}
+			}
+		}
+		return out
+	}
+	before := probe()
 	ctx, _ := ci.GetContext().CacheContext()
 	err := ci.App.TIBCKeeper.RoutingKeeper.SetRoutingRules(ctx, rules)
+	if after := probe(); after != before {
+		// C19: a request that ends up refused (its branch is discarded) leaves the chain exactly as it was --
+		// also in what the keepers answer from (process memory is not rolled back with the store)
+		h.Fails = append(h.Fails, OracleFailure{"C19:discarded-request-left-trace",
+			"a routing-rule change executed on a branch of the state that was then discarded still changed what the routing keeper answers (rules query / Authenticate)",
+			map[string]any{"chain": i, "rules": rules, "before": before, "after": after}})
+	}
 	h.commit(i)
 	h.record(fmt.Sprintf("NChain %d %d (OTick 0)", i, now), i, StepDesc{Op: "setrules-discarded", Rules: rules}, true, nil)
 	return err == nil
